@@ -285,6 +285,9 @@ instance : HasDType TM := ⟨TM.dt⟩
 /-- `np.zeros((a, b), dtype=t)` -/
 def tzeros (a b : Nat) (t : DT) : TM := ⟨t, zeros a b⟩
 def canCastSameKind (a b : DT) : Bool := !(a == DT.float && b == DT.int)
+/-- `np.can_cast(a, b, casting="safe")`: refuses narrowing within a kind as well; the two-kind model has no widths, so it
+is the same relation (what differs — int64 into int32, float64 into float32 — is outside the model) -/
+def canCastSafe (a b : DT) : Bool := canCastSameKind a b
 def promote (a b : DT) : DT := if a == DT.float || b == DT.float then DT.float else DT.int
 /-- C truncation toward zero: what numpy stores when a float is assigned into an integer array -/
 def truncQ (q : Rat) : Rat := if 0 ≤ q then (q.floor : Rat) else (q.ceil : Rat)
